@@ -25,11 +25,27 @@ type vC38Result struct {
 }
 
 // one script on its own watcher; symlink = the watched name is a symlink (Kubernetes style) swapped atomically
-func vC38Run(dir string, symlink bool, ops []vC38Op) (res vC38Result, err error) {
+// k8s = the ConfigMap layout: conf.yml -> ..data/conf.yml, ..data -> ..v<N>/ (a directory), updated by renaming a new
+// ..data symlink over the old one: no event ever names the watched file, only its resolved path changes
+func vC38Run(dir string, symlink bool, k8s bool, ops []vC38Op) (res vC38Result, err error) {
 	target := filepath.Join(dir, "conf.yml")
 	gen := 0
 	realFile := func(g int) string { return filepath.Join(dir, fmt.Sprintf("data%d.yml", g)) }
-	if symlink {
+	verDir := func(g int) string { return filepath.Join(dir, fmt.Sprintf("..v%d", g)) }
+	if k8s {
+		if err = os.Mkdir(verDir(0), 0o755); err != nil {
+			return
+		}
+		if err = os.WriteFile(filepath.Join(verDir(0), "conf.yml"), []byte("a: 0\n"), 0o644); err != nil {
+			return
+		}
+		if err = os.Symlink(fmt.Sprintf("..v%d", 0), filepath.Join(dir, "..data")); err != nil {
+			return
+		}
+		if err = os.Symlink(filepath.Join("..data", "conf.yml"), target); err != nil {
+			return
+		}
+	} else if symlink {
 		if err = os.WriteFile(realFile(0), []byte("a: 0\n"), 0o644); err != nil {
 			return
 		}
@@ -84,6 +100,9 @@ func vC38Run(dir string, symlink bool, ops []vC38Op) (res vC38Result, err error)
 		if symlink && (kind == "delete" || kind == "create" || kind == "replace") {
 			kind = "swap"
 		}
+		if k8s {
+			kind = "k8s-swap"
+		}
 		hit := false
 		switch kind {
 		case "append": // one write(2) on the resolved file: a single Write event
@@ -116,6 +135,19 @@ func vC38Run(dir string, symlink bool, ops []vC38Op) (res vC38Result, err error)
 			}
 			exists = true
 			hit = true
+		case "k8s-swap": // new version directory, new ..data symlink renamed over the old one
+			gen++
+			os.Mkdir(verDir(gen), 0o755)                                                                     //nolint:errcheck
+			os.WriteFile(filepath.Join(verDir(gen), "conf.yml"), []byte(fmt.Sprintf("a: %d\n", gen)), 0o644) //nolint:errcheck
+			tmp := filepath.Join(dir, "..data_tmp")
+			os.Remove(tmp) //nolint:errcheck
+			if e := os.Symlink(fmt.Sprintf("..v%d", gen), tmp); e != nil {
+				return res, e
+			}
+			if e := os.Rename(tmp, filepath.Join(dir, "..data")); e != nil {
+				return res, e
+			}
+			cur = int64(gen + 1)
 		case "swap": // new real file, new symlink renamed over the old one
 			gen++
 			os.WriteFile(realFile(gen), []byte(fmt.Sprintf("a: %d\n", gen)), 0o644) //nolint:errcheck
@@ -145,8 +177,13 @@ func vC38Run(dir string, symlink bool, ops []vC38Op) (res vC38Result, err error)
 	mu.Lock()
 	defer mu.Unlock()
 	res.coq = cqApp("Script", "1", cqList(evs), cqListOf(signals, cqZ), cqZ(lastChange), cqBool(exists))
-	res.desc = map[string]any{"symlink": symlink, "ops": evsD, "signals_ms": signals, "last_change_ms": lastChange, "exists_at_end": exists}
+	res.desc = map[string]any{"symlink": symlink, "k8s": k8s, "ops": evsD, "signals_ms": signals, "last_change_ms": lastChange, "exists_at_end": exists}
 	res.class = fmt.Sprintf("%d-signals", len(signals))
+	if k8s {
+		res.class = "k8s-" + res.class
+	} else if symlink {
+		res.class = "symlink-" + res.class
+	}
 	res.multi = len(ops) > 1
 	return res, nil
 }
@@ -162,6 +199,7 @@ func TestVerifC38(t *testing.T) {
 	type job struct {
 		dir     string
 		symlink bool
+		k8s     bool
 		ops     []vC38Op
 	}
 	var jobs []job
@@ -194,7 +232,7 @@ func TestVerifC38(t *testing.T) {
 		}
 		d := filepath.Join(base, fmt.Sprintf("s%d", i))
 		os.MkdirAll(d, 0o755) //nolint:errcheck
-		jobs = append(jobs, job{d, i%3 == 2, ops})
+		jobs = append(jobs, job{d, i%6 == 2, i%6 == 5 || i%6 == 3, ops})
 	}
 	results := make([]vC38Result, len(jobs))
 	errs := make([]error, len(jobs))
@@ -206,7 +244,7 @@ func TestVerifC38(t *testing.T) {
 			defer wg.Done()
 			sem <- struct{}{}
 			defer func() { <-sem }()
-			results[i], errs[i] = vC38Run(jobs[i].dir, jobs[i].symlink, jobs[i].ops)
+			results[i], errs[i] = vC38Run(jobs[i].dir, jobs[i].symlink, jobs[i].k8s, jobs[i].ops)
 		}(i)
 	}
 	wg.Wait()
